@@ -658,7 +658,9 @@ impl<S: EntryIoStream, E: Entry> Receiver<S, E> {
         let span = tracing::span!(tracing::Level::TRACE, "metrics background queue", sink=?self.inner.name);
         let _enter = span.enter();
         let mut waker_tracker = WakerTracker::new(flush_queue_receiver);
-        let inner = self.inner.clone();
+        // The capacity is fixed. Read it once instead of holding on to a second reference to `inner`,
+        // which would prevent `Arc::get_mut` below from ever noticing that all appenders are gone.
+        let queue_capacity = self.inner.queue.capacity();
 
         loop {
             let next_flush = Instant::now() + self.flush_interval;
@@ -668,7 +670,7 @@ impl<S: EntryIoStream, E: Entry> Receiver<S, E> {
                 let (status, entry_count) = self.drain_until_deadline(next_flush);
 
                 waker_tracker.handle_waiting_wakers(
-                    || inner.queue.capacity(),
+                    || queue_capacity,
                     || self.flush_stream(),
                     status,
                     entry_count,
